@@ -61,6 +61,8 @@ structure XEnt (d : Dpb) (dir0 : Dir) (sr : Raw) (f : FImg) (x : Nat) (e : Bytes
       sr.units[(entryPtrs d e).getD k 0]? = some (quantize (blockSize d) c))
   /-- the entry of the last physical extent carries the end of file -/
   last : x + 1 = putMaxX d f → eofOf e = (cpmParams d).eofRule f.eof
+  /-- every other entry is numbered by the last logical extent of its physical extent -/
+  full : x + 1 < putMaxX d f → extNum e = x * (d.exm + 1) + d.exm
 
 /-- equal non-zero pointers in file entries of a directory sit in the same entry and slot -/
 def PtrsDistinct (d : Dpb) (dir : Dir) : Prop :=
